@@ -263,6 +263,10 @@ class Interp:
         if isinstance(e, ast.Tuple): return tuple(self.ev(x, env, guard, out) for x in e.elts)
         if isinstance(e, ast.List): return [self.ev(x, env, guard, out) for x in e.elts]
         if isinstance(e, ast.JoinedStr): return "<fstring>"
+        if isinstance(e, ast.Yield):
+            v = self.ev(e.value, env, guard, out) if e.value is not None else None
+            env["__yields"] = list(env.get("__yields", [])) + [(guard, v)]
+            return None
         if isinstance(e, ast.IfExp):
             c = self.ev(e.test, env, guard, out)
             if not is_sym(c):
